@@ -141,10 +141,11 @@ Section Dict.
     match wm_get_with_chars m w with Some _ => true | None => false end.
   Definition mut_canon (m : wordmap) (w : text) : option text :=
     option_map e_canon (wm_get_with_chars m w).
+  (* contains_exact_word (after fix ebb53b3): the stored spelling is compared in normalized form too *)
   Definition mut_exact (m : wordmap) (w : text) : bool :=
     let n := normalized w in
     match wm_get_with_chars m n with
-    | Some found => text_eqb (e_canon found) n
+    | Some found => text_eqb (normalized (e_canon found)) n
     | None => false
     end.
   Definition mut_from_id (m : wordmap) (id : text) : option text := option_map e_canon (wm_get m id).
@@ -166,7 +167,23 @@ Section Dict.
     f_words : list (text * meta)              (* words: sorted, deduplicated; index = value in the fst::Map *)
   }.
 
+  (* FstDictionary::new (after fix 71c98b2): sort, dedup by spelling, build the word map, then
+     words.retain(|(w, _)| full_dict.get_correct_capitalization_of(w) == Some(w)) — only the spellings
+     the word map kept stay in the fuzzy index (`words` + the fst::Map built from it) *)
+  Definition kept_by (full : wordmap) (wm : text * meta) : bool :=
+    match mut_canon full (fst wm) with
+    | Some c => text_eqb c (fst wm)
+    | None => false
+    end.
+
   Definition fst_new (words : list (text * meta)) : fst_dict :=
+    let ws := wdedup (wsort words) in
+    let full := mut_extend [] ws in
+    mkfst full (filter (kept_by full) ws).
+
+  (* HISTORY: FstDictionary::new before fix 71c98b2 (FC15a) — `words` kept every spelling.  Only for the
+     regression witness C15_fst_new_collision_old_refuted. *)
+  Definition fst_new_old (words : list (text * meta)) : fst_dict :=
     let ws := wdedup (wsort words) in
     mkfst (mut_extend [] ws) ws.
 
@@ -197,3 +214,20 @@ Section Dict.
   Definition merged_words (cs : list dict_ops) : list text := flat_map d_words cs.
   Definition merged_count (cs : list dict_ops) : nat := fold_right (fun c n => d_count c + n) 0 cs.
 End Dict.
+
+(* ---------- MergedDictionary::hash_dictionary / PartialEq (after fix f2dc537) ----------
+   child hash = words_iter().map(|w| hasher_builder.hash_one(w)).fold(0u64, wrapping_add)   (the curated
+   dictionary, recognised by pointer, hashes to 1 and is not modelled here); two merged dictionaries are
+   `==` iff their lists of child hashes are equal.  `hash_one` (foldhash) is a parameter. *)
+Definition two64 : N := 18446744073709551616%N.
+Definition wrapping_add64 (a b : N) : N := ((a + b) mod two64)%N.
+Definition hash_words (hash_one : text -> N) (ws : list text) : N :=
+  fold_left (fun acc w => wrapping_add64 acc (hash_one w)) ws 0%N.
+Definition merged_eqb (hash_one : text -> N) (cs cs' : list (list text)) : bool :=
+  let hs := map (hash_words hash_one) cs in
+  let hs' := map (hash_words hash_one) cs' in
+  (length hs =? length hs') && forallb (fun p => N.eqb (fst p) (snd p)) (combine hs hs').
+
+(* HISTORY: before fix f2dc537 the characters of all words went into ONE hasher, in iteration order, with
+   no separator: the hash was a function of the concatenation of the words *)
+Definition hash_words_old (hash_stream : text -> N) (ws : list text) : N := hash_stream (concat ws).
